@@ -1,4 +1,5 @@
 import Pyrtma.Proofs.ManagerSimConn
+import Pyrtma.Proofs.ManagerSimLog
 /-!
 # Refinement of the history-based Spec by the manager model M1 — part 6: rounds and histories
 
@@ -234,6 +235,15 @@ theorem go_nil_ext (cfg : Cfg) : ∀ (reads : List Read) (a : A) (fuel : Nat),
       · exact Spec.errExt_err _ _ _ _ (by simp)
     · exact go_nil_ext cfg rest a fuel
 
+/-- with no segment left and every remaining frame pending on a departed connection, `go` does nothing -/
+theorem go_dead (cfg : Cfg) : ∀ (reads : List Read) (a : A) (fuel : Nat), (∀ rd ∈ reads, a.live rd.uid = none) →
+    Spec.roundBody.go cfg a reads [] fuel = a
+  | [], a, fuel, _ => go_nil cfg a fuel
+  | rd :: rest, a, 0, _ => by rw [Spec.roundBody.go.eq_def]
+  | rd :: rest, a, fuel + 1, h => by
+    rw [go_skip cfg a rd rest [] fuel (h rd (by simp))]
+    exact go_dead cfg rest a fuel (fun x hx => h x (by simp [hx]))
+
 theorem readAll_cons (cfg : Cfg) (rd : Read) (rest : List Read) (s : State) :
     readAll cfg (rd :: rest) s = readAll cfg rest (readOne cfg s rd) := rfl
 
@@ -265,7 +275,7 @@ the last segment. -/
 theorem readAll_go : ∀ (reads : List Read) (a : A) (s sQ : State) (E : List Ev) (fuel : Nat),
     Inv cfg a s → (∀ rd ∈ reads, rd.uid ≠ 0) → reads.length ≤ fuel →
     QuietTo cfg (readAll cfg reads s) sQ → sQ.out = s.out ++ E →
-    ((∀ u, Ev.rd u ∉ E) ∧ readAll cfg reads s = s) ∨
+    ((∀ u, Ev.rd u ∉ E) ∧ readAll cfg reads s = s ∧ (∀ rd ∈ reads, s.find rd.uid = none)) ∨
     ((Spec.splitRd E).1 = [] ∧ (Spec.splitRd E).2 ≠ [] ∧
       Inv cfg (Spec.roundBody.go cfg a reads (Spec.splitRd E).2 fuel) sQ ∧
       (∀ p ∈ proven, Spec.NoErr p a → Spec.NoErr p (Spec.roundBody.go cfg a reads (Spec.splitRd E).2 fuel)))
@@ -274,7 +284,7 @@ theorem readAll_go : ∀ (reads : List Read) (a : A) (s sQ : State) (E : List Ev
     obtain ⟨E', hE', hno, _⟩ := q.nest.ext
     have : E' = E := List.append_cancel_left (hE'.symm.trans he)
     subst this
-    exact ⟨hno, rfl⟩
+    exact ⟨hno, rfl, fun _ h => by cases h⟩
   | rd :: rest, a, s, sQ, E, 0, _, _, hlen, _, _ => by simp at hlen
   | rd :: rest, a, s, sQ, E, fuel + 1, inv, hwf, hlen, q, he => by
     have hu0 : rd.uid ≠ 0 := hwf rd (by simp)
@@ -291,8 +301,12 @@ theorem readAll_go : ∀ (reads : List Read) (a : A) (s sQ : State) (E : List Ev
         | some x =>
           have := (inv.sim.live rd.uid hu0).mp (by simp [hl])
           rw [hm] at this; cases this
-      rcases readAll_go rest a s sQ E fuel inv hwf' hlen' q he with ⟨h1, h2⟩ | ⟨h1, h2, h3, h4⟩
-      · left; exact ⟨h1, by rw [readAll_cons, readOne_skip cfg s rd hm]; exact h2⟩
+      rcases readAll_go rest a s sQ E fuel inv hwf' hlen' q he with ⟨h1, h2, h2'⟩ | ⟨h1, h2, h3, h4⟩
+      · left
+        refine ⟨h1, by rw [readAll_cons, readOne_skip cfg s rd hm]; exact h2, fun x hx => ?_⟩
+        rcases List.mem_cons.mp hx with rfl | hx'
+        · exact hm
+        · exact h2' x hx'
       · right; rw [go_skip cfg a rd rest _ fuel hdead]; exact ⟨h1, h2, h3, h4⟩
     | some m =>
       right
@@ -316,7 +330,7 @@ theorem readAll_go : ∀ (reads : List Read) (a : A) (s sQ : State) (E : List Ev
       -- the abstract state after this frame alone
       have hx := segment_ok ok hfuel hperm (invN E1) rd hu0 m hm (readOne cfg s rd) (quietTo_refl t1 j1) E1 hE1
       rcases readAll_go rest (Spec.segment cfg (Spec.checkNoticeOrigin cfg a (some rd) E1) rd E1) (readOne cfg s rd) sQ
-          (E2a ++ E2b) fuel ⟨hx.1.sim, hx.1.top, hx.1.j⟩ hwf' hlen' q hE2 with ⟨h1, h2⟩ | ⟨h1, h2, h3, h4⟩
+          (E2a ++ E2b) fuel ⟨hx.1.sim, hx.1.top, hx.1.j⟩ hwf' hlen' q hE2 with ⟨h1, h2, h2'⟩ | ⟨h1, h2, h3, h4⟩
       · -- the last frame handled in this round: the continuation's events belong to its segment
         rw [h2] at q
         have hsplit : Spec.splitRd E = ([], [(rd.uid, E1 ++ (E2a ++ E2b))]) := by
@@ -328,16 +342,24 @@ theorem readAll_go : ∀ (reads : List Read) (a : A) (s sQ : State) (E : List Ev
         have hseg := segment_ok ok hfuel hperm (invN (E1 ++ (E2a ++ E2b))) rd hu0 m hm sQ q (E1 ++ (E2a ++ E2b))
           (by rw [he, hE]; simp)
         rw [hsplit]
-        have hext := go_nil_ext cfg rest
-          (Spec.segment cfg (Spec.checkNoticeOrigin cfg a (some rd) (E1 ++ (E2a ++ E2b))) rd (E1 ++ (E2a ++ E2b))) fuel
+        -- the remaining frames are pending on connections that are gone
+        have hdead : ∀ x ∈ rest, (Spec.segment cfg (Spec.checkNoticeOrigin cfg a (some rd) (E1 ++ (E2a ++ E2b))) rd
+            (E1 ++ (E2a ++ E2b))).live x.uid = none := by
+          intro x hx
+          have hgone : sQ.find x.uid = none := nest_gone q.nest q.top.aopen x.uid (h2' x hx)
+          cases hl : (Spec.segment cfg (Spec.checkNoticeOrigin cfg a (some rd) (E1 ++ (E2a ++ E2b))) rd
+              (E1 ++ (E2a ++ E2b))).live x.uid with
+          | none => rfl
+          | some y =>
+            have := (hseg.1.sim.live x.uid (hwf' x hx)).mp (by simp [hl])
+            rw [hgone] at this; cases this
+        have hgo := go_dead cfg rest _ fuel hdead
         refine ⟨rfl, by simp, ?_, ?_⟩
-        · rw [go_take cfg a rd rest _ [] fuel am ham]
-          exact ⟨sim_coreExt hseg.1.sim hext.core, hseg.1.top, hseg.1.j⟩
+        · rw [go_take cfg a rd rest _ [] fuel am ham, hgo]
+          exact hseg.1
         · intro p hp hn
-          rw [go_take cfg a rd rest _ [] fuel am ham]
-          refine hext.noErr ?_ (hseg.2 p hp (errN _ p hp hn))
-          have := proven_not hp
-          intro hmem; apply this; simp only [List.mem_singleton] at hmem; subst hmem; simp [others]
+          rw [go_take cfg a rd rest _ [] fuel am ham, hgo]
+          exact hseg.2 p hp (errN _ p hp hn)
       · have hsplit : Spec.splitRd E = ([], (rd.uid, E1) :: (Spec.splitRd (E2a ++ E2b)).2) := by
           rw [hE, List.cons_append, splitRd_rd, splitRd_append E1 _ hno1, h1]; simp
         rw [hsplit]
@@ -781,7 +803,8 @@ theorem round_ok {a : A} {s : State} (inv : Inv cfg a s) (r : Round) (hwf : Roun
     exact noErr_applyDepartures eAcc (hX0.noErr (proven_not hp) (by unfold Spec.NoErr; rw [herrs]; exact hn))
   unfold roundRest
   rcases readAll_go ok hfuel hperm reads (goStart cfg a3 eAcc) sP (ticks cfg (readAll cfg reads sP)) (E1 ++ E2)
-      (reads.length + (Spec.splitRd (E1 ++ E2)).2.length + 1) inv0 hwf' (by omega) q hE with ⟨hnoE, hid⟩ | ⟨hp1, hp2, hp3, hp4⟩
+      (reads.length + (Spec.splitRd (E1 ++ E2)).2.length + 1) inv0 hwf' (by omega) q hE with
+      ⟨hnoE, hid, hskip⟩ | ⟨hp1, hp2, hp3, hp4⟩
   · -- no frame was read in this round
     have hs2 : Spec.splitRd (E1 ++ E2) = (E1 ++ E2, []) := splitRd_noRd _ hnoE
     rw [hsplit, hs2, ← hevs]
@@ -794,10 +817,19 @@ theorem round_ok {a : A} {s : State} (inv : Inv cfg a s) (r : Round) (hwf : Roun
         exact sim_quiet hsP tP.aopen q.top.aopen hn q.j (E1 ++ E2) hE
       rw [applyDepartures_append] at h1 ⊢
       exact sim_coreExt h1 (Spec.applyDepartures_coreExt hX _)
-    have hgo := go_nil_ext cfg reads (goStart cfg a3 evs) (reads.length + 1)
+    have hdead : ∀ x ∈ reads, (goStart cfg a3 evs).live x.uid = none := by
+      intro x hx
+      have hgone : (ticks cfg (readAll cfg reads sP)).find x.uid = none :=
+        nest_gone q.nest q.top.aopen x.uid (by rw [hid]; exact hskip x hx)
+      cases hl : (goStart cfg a3 evs).live x.uid with
+      | none => rfl
+      | some y =>
+        have := (hsimT.live x.uid (hwf' x hx)).mp (by simp [hl])
+        rw [hgone] at this; cases this
+    have hgo := go_dead cfg reads (goStart cfg a3 evs) (reads.length + 1) hdead
     have hend := roundEnd_ext cfg (Spec.roundBody.go cfg (goStart cfg a3 evs) reads [] (reads.length + 1)) evs []
     have hall : Spec.CoreExt others (goStart cfg a3 evs) (roundEnd cfg (Spec.roundBody.go cfg (goStart cfg a3 evs) reads []
-        (reads.length + 1)) evs []) := (ext_others hgo).trans hend
+        (reads.length + 1)) evs []) := by rw [hgo] at hend ⊢; exact hend
     refine ⟨⟨sim_coreExt hsimT hall, q.top, q.j⟩, fun p hp hn => hall.noErr (proven_not hp) ?_⟩
     rw [hgs]
     exact noErr_applyDepartures evs (hX.noErr (proven_not hp) (by unfold Spec.NoErr; rw [herrs]; exact hn))
@@ -901,17 +933,19 @@ include hperm
 theorem rounds_ok : ∀ (rs : List Round) (a : A) (s : State), Inv cfg a s → RoundsWF rs →
     Inv cfg ((List.zip rs (modelRounds cfg s rs)).foldl (fun a p => Spec.round cfg a p.1 p.2) a) (rs.foldl (step cfg) s) ∧
     (∀ p ∈ proven, Spec.NoErr p a →
-      Spec.NoErr p ((List.zip rs (modelRounds cfg s rs)).foldl (fun a p => Spec.round cfg a p.1 p.2) a))
-  | [], a, s, inv, _ => ⟨inv, fun _ _ h => h⟩
+      Spec.NoErr p ((List.zip rs (modelRounds cfg s rs)).foldl (fun a p => Spec.round cfg a p.1 p.2) a)) ∧
+    s.out ++ (modelRounds cfg s rs).flatten = (rs.foldl (step cfg) s).out
+  | [], a, s, inv, _ => ⟨inv, fun _ _ h => h, by simp [modelRounds]⟩
   | r :: rs, a, s, inv, hwf => by
     have hr : RoundWF r := hwf r (by simp)
     obtain ⟨evs, hevs⟩ := step_out ok hfuel inv r hr
     have hre : roundEvents cfg s r = evs := by
       unfold roundEvents; rw [hevs, List.drop_left]
     obtain ⟨inv1, herr1⟩ := round_ok ok hfuel hperm inv r hr evs hevs
-    obtain ⟨inv2, herr2⟩ := rounds_ok rs (Spec.round cfg a r evs) (step cfg s r) inv1 (fun x hx => hwf x (by simp [hx]))
-    simp only [modelRounds, List.zip_cons_cons, List.foldl_cons, hre]
-    exact ⟨inv2, fun p hp hn => herr2 p hp (herr1 p hp hn)⟩
+    obtain ⟨inv2, herr2, hfl2⟩ := rounds_ok rs (Spec.round cfg a r evs) (step cfg s r) inv1 (fun x hx => hwf x (by simp [hx]))
+    simp only [modelRounds, List.zip_cons_cons, List.foldl_cons, hre, List.flatten_cons]
+    refine ⟨inv2, fun p hp hn => herr2 p hp (herr1 p hp hn), ?_⟩
+    rw [← hfl2, hevs, List.append_assoc]
 
 /-- **The model meets the Spec, for the proved properties.**  Run the model on any well-formed history, hand the Spec
 the history and the events the model wrote, round by round: the Spec's verdict contains no entry for a property in
@@ -924,14 +958,20 @@ theorem model_meets_spec_proven (rs : List Round) (hwf : RoundsWF rs) :
     Bool.or_false, beq_self_eq_true]
   have h0 : Spec.NoErr p (({} : A).chk true "C03" "the manager did not play every round of the script") := by
     intro e he; cases he
-  obtain ⟨_, herr⟩ := rounds_ok ok hfuel hperm rs (({} : A).chk true "C03" "the manager did not play every round of the script")
-    (init cfg) (init_sim ok hfuel) hwf
+  obtain ⟨_, herr, hflat⟩ := rounds_ok ok hfuel hperm rs
+    (({} : A).chk true "C03" "the manager did not play every round of the script") (init cfg) (init_sim ok hfuel) hwf
   have h1 := herr p hp h0
   have hnot := proven_not hp
-  refine (Spec.checkNoNotice_ext cfg _ _).noErr (fun h => hnot ?_) ((Spec.checkC05_ext _ _ _).noErr (fun h => hnot ?_) h1)
+  -- the whole log is the model's log: no malformed frame in it
+  have hall : ((init cfg).out :: modelRounds cfg (init cfg) rs).flatten = (run cfg rs).out := by
+    rw [List.flatten_cons]; exact hflat
+  have hbroken := lok_broken (evs := ((init cfg).out :: modelRounds cfg (init cfg) rs).flatten)
+    (by rw [hall]; exact run_lok cfg rs)
+  refine (Spec.checkNoNotice_ext cfg _ _).noErr (fun h => hnot ?_)
+    ((Spec.checkC05_c03 _ _ _ hbroken).noErr (fun h => hnot ?_) h1)
   · simp only [List.mem_singleton] at h; subst h; simp [others]
   · simp only [List.mem_cons, List.not_mem_nil, or_false] at h
-    rcases h with h | h | h <;> subst h <;> simp [others]
+    rcases h with h | h <;> subst h <;> simp [others]
 
 end hist
 
